@@ -497,6 +497,7 @@ fn kind_name(k: &EntryKind) -> &'static str {
 }
 
 fn run_history<K: RKey>(check: &Check, w: &mut World<K>, ops: &[Op], label: &str, cfg: vmon::Value) {
+    DOG.with(|d| if let Some(d) = d.borrow().as_ref() { d.enter(|| format!("{label} {cfg} {ops:?}")) });
     let mut done = vec![];
     for (i, op) in ops.iter().enumerate() {
         done.push(*op);
@@ -519,6 +520,12 @@ fn run_history<K: RKey>(check: &Check, w: &mut World<K>, ops: &[Op], label: &str
     check.count("ops_total", done.len() as u64);
     check.case(w.mon.sig.0, w.mon.pending_created > 0);
     clock::unfreeze();
+    DOG.with(|d| if let Some(d) = d.borrow().as_ref() { d.leave() });
+}
+
+thread_local! { static DOG: std::cell::RefCell<Option<std::sync::Arc<Dog>>> = const { std::cell::RefCell::new(None) }; }
+fn arm(d: &std::sync::Arc<Dog>) {
+    DOG.with(|x| if x.borrow().is_none() { *x.borrow_mut() = Some(d.clone()) });
 }
 
 fn state_hash<K: RKey>(s: &[BucketSnap<K>]) -> u64 {
@@ -680,23 +687,34 @@ fn sample<K: RKey>(check: &Check, w: &World<K>, ops: &[Op], kind: &str) {
 }
 
 pub fn run(args: &Args) -> i32 {
-    let check = Check::new(
+    let check: &'static Check = Box::leak(Box::new(Check::new(
         args,
         "exploration",
         "bounded-exhaustive op sequences (3 keys of one bucket; bucket_size 1: all length-d sequences over 18 ops, bucket_size 2: all length-(d+1) sequences over 14 ops; d=4 quick, 5 thorough) \
          plus PRNG histories (40-200 ops, ~14 keys in 3 hot buckets + buckets 0/1/255, raw and hashed keys, bucket_size 1-5, timeouts 0/1ns/1s/60s, clock advances aimed at timeout-1ns/+0/+1ns). \
          Non-trivial = history in which a bucket was full and a pending entry was created; distinct by (op, outcome) sequence",
-    );
+    )));
     let tiny = args.extra.get("budget").map(|b| b == "tiny").unwrap_or(false);
     let d = if tiny { 2 } else { args.tier.pick(4, 5) };
     let full = alphabet(true);
     let reduced = alphabet(false);
     let n1 = (full.len() as u64).pow(d);
     let n2 = (reduced.len() as u64).pow(d + 1);
-    vmon::par_cases(&check, n1, args.threads, |i, _| exhaustive_case(&check, i, &full, d, 1));
-    vmon::par_cases(&check, n2, args.threads, |i, _| exhaustive_case(&check, i, &reduced, d + 1, 2));
+    let dog = Dog::start(check, 60);
+    vmon::par_cases(check, n1, args.threads, |i, _| {
+        arm(&dog);
+        exhaustive_case(check, i, &full, d, 1)
+    });
+    vmon::par_cases(check, n2, args.threads, |i, _| {
+        arm(&dog);
+        exhaustive_case(check, i, &reduced, d + 1, 2)
+    });
     check.note("exhaustive", json!(format!("partly: all {n1} sequences of length {d} over {} ops (bucket_size 1) and all {n2} of length {} over {} ops (bucket_size 2)", full.len(), d + 1, reduced.len())));
     let n = if tiny { 10 } else { args.tier.pick(20_000, 1_000_000) };
-    vmon::par_cases(&check, n, args.threads, |_i, rng| prng_case(&check, rng));
+    vmon::par_cases(check, n, args.threads, |_i, rng| {
+        arm(&dog);
+        prng_case(check, rng)
+    });
+    dog.stop();
     check.finish()
 }
